@@ -19,6 +19,16 @@ SCHEMA_B = '''
   type SpecialCard extending Card;
   type FoilCard extending SpecialCard;
 '''
+# union-typed links whose members declare same-named pointers independently
+# (with different requiredness / cardinality)
+SCHEMA_C = '''
+  type Owner { required name: str { constraint exclusive }; }
+  type Crate { required label: str; required owner: Owner;
+               multi tags: str; }
+  type Pallet { label: str; owner: Owner; required multi tags: str; }
+  type Slot { required content: Crate | Pallet; alt: Crate | Pallet;
+              multi many: Crate | Pallet; }
+'''
 
 
 def setup():
@@ -37,7 +47,7 @@ def setup():
 def schema(which):
     S = setup()
     if which not in S['schemas']:
-        sdl = SCHEMA_A if which == 'A' else SCHEMA_B
+        sdl = {'A': SCHEMA_A, 'B': SCHEMA_B, 'C': SCHEMA_C}[which]
         S['schemas'][which] = S['schemax'].migrate(
             S['S']['std'], 'module default { %s }' % sdl)
     return S['schemas'][which]
@@ -125,6 +135,88 @@ def dbs_B():
                             if favs[i] else []})
                     out.append(objs)
     return out
+
+
+def dbs_C():
+    """One owner; <= 1 crate; a pallet in three fillings (absent, bare,
+    full); <= 2 slots with every content / alt / many assignment over the
+    objects present."""
+    T = setup()['T']
+    B, L = T.bsid, T.bslink
+    owner = {"id": B(90), "__type__": "Owner", "name": "o"}
+    crate = {"id": B(50), "__type__": "Crate", "label": "c",
+             "owner": [L(90)], "tags": []}
+    crate2 = dict(crate, tags=["x", "y"])
+    bare = {"id": B(60), "__type__": "Pallet", "tags": ["t"], "owner": []}
+    full = {"id": B(60), "__type__": "Pallet", "label": "p",
+            "owner": [L(90)], "tags": ["t", "u"]}
+    out = [[], [owner]]
+    for boxes in ([crate], [bare], [full], [crate, bare], [crate2, full]):
+        ids = [int(b["id"].int & 0xfff) for b in boxes]
+        subsets = list(itertools.chain.from_iterable(
+            itertools.combinations(ids, k) for k in range(len(ids) + 1)))
+        for ns in (0, 1, 2):
+            per_slot = [(c, a, m) for c in ids for a in [None] + ids
+                        for m in subsets]
+            for slots in (itertools.product(per_slot, repeat=ns) if ns
+                          else [()]):
+                if ns == 2 and repr(slots[0]) > repr(slots[1]):
+                    continue
+                objs = [owner] + list(boxes)
+                for i, (c, a, m) in enumerate(slots):
+                    objs.append({"id": B(i + 1), "__type__": "Slot",
+                                 "content": [L(c)],
+                                 "alt": [L(a)] if a else [],
+                                 "many": [L(x) for x in m]})
+                out.append(objs)
+    return out
+
+
+QUERIES_C = [
+    'select Slot', 'select Slot.content', 'select Slot.content.label',
+    'select Slot.content.owner', 'select Slot.content.owner.name',
+    'select Slot.content.tags', 'select Slot.alt.label',
+    'select Slot.alt.owner', 'select Slot.alt.tags',
+    'select Slot.many.label', 'select Slot.many.owner.name',
+    'select Slot.many.tags', 'select (Crate union Pallet).label',
+    'select {Crate, Pallet}.owner', 'select (Crate union Pallet).tags',
+    'select (Pallet union Crate).label',
+    'select Slot.content[is Crate].label',
+    'select Slot.content[is Pallet].label',
+    'select Slot.content[is Pallet].owner',
+    'select Slot.content[is Crate].tags',
+    'select (select Slot limit 1).content.label',
+    'select (select Slot limit 1).content.owner',
+    'select (select Slot limit 1).content.tags',
+    'select (select Slot limit 1).alt.label',
+    'for s in Slot union s.content.label',
+    'for s in Slot union s.content.owner',
+    'select count(Slot.content.label)', 'select exists Slot.content.label',
+    'select Slot { content }', 'select Slot { content: { label } }',
+    'select Slot { content: { label, owner: { name }, tags } }',
+    'select Slot { alt: { label, owner: { name } } }',
+    'select Slot { many: { label, tags } }',
+    'select Slot { l := .content.label }', 'select Slot { o := .content.owner }',
+    'select Slot { n := .content.owner.name }',
+    'select Slot { t := .content.tags }', 'select Slot { l := .alt.label }',
+    'select Slot { o := .alt.owner }', 'select Slot { t := .alt.tags }',
+    'select Slot { l := .many.label }', 'select Slot { t := .many.tags }',
+    'select Slot { l := .content[is Crate].label }',
+    'select Slot { l := .content[is Pallet].label }',
+    'select Slot { c := count(.content.tags), l := .content.label }',
+    'select Slot { x := (.content.label, 1) }',
+    'select Slot { x := .content.label ?? "none" }',
+    'select Slot { x := (select .content.label) }',
+    'select Slot { x := (select .content).label }',
+    'select Slot { x := (select .content filter true).owner }',
+    'select Slot { x := (.content union .alt).label }',
+    'select Slot { x := (.content ?? .alt).owner }',
+    'select Crate { label, owner: { name } }', 'select Pallet { label, tags }',
+    'select Owner.<owner', 'select Owner.<owner[is Crate]',
+    'select Owner.<owner[is Pallet].label', 'select Crate.<content',
+    'select Pallet.<content[is Slot]', 'select Owner { b := .<owner }',
+    'select Owner { b := .<owner[is Pallet].label }',
+]
 
 
 def mk(objs):
@@ -244,6 +336,8 @@ EXTRA_B = [
 
 
 def queries(which, quick):
+    if which == 'C':
+        return [(q, 'union-link:' + q) for q in QUERIES_C]
     atoms = ATOMS_A if which == 'A' else ATOMS_B
     filters = FILTERS_A if which == 'A' else FILTERS_B
     qs = []
